@@ -45,6 +45,9 @@ type Violation struct {
 	Sig    string `json:"signature"` // oracle clause + API + implementation class (stable, low cardinality)
 	Detail string `json:"detail"`    // expected vs observed
 	Case   Case   `json:"case"`
+	// CaseID, when set, identifies the case for known-finding case sets independently of the
+	// search parameters and of the payload's encoding (e.g. the operation history alone).
+	CaseID string `json:"case_id,omitempty"`
 }
 
 // caseHash identifies a (signature, case) pair for known-finding case sets.
@@ -56,7 +59,11 @@ func (v Violation) caseHash() string {
 	h.Write([]byte{0})
 	h.Write([]byte(v.Case.Engine))
 	h.Write([]byte{0})
-	h.Write(v.Case.Payload)
+	if v.CaseID != "" {
+		h.Write([]byte(v.CaseID))
+	} else {
+		h.Write(v.Case.Payload)
+	}
 	return hex.EncodeToString(h.Sum(nil)[:8])
 }
 
